@@ -359,3 +359,70 @@ func Respell(q Req, sp Spelling) Req {
 	q.Label = "spelling:" + sp.Label
 	return q
 }
+
+// HeaderVariant is one shape of the JOSE header besides alg; none of it may influence which key verifies.
+type HeaderVariant struct {
+	Label  string
+	Header map[string]interface{}
+	Dup    string
+	KidFam bool // the "key id" family: values a key-selection scheme might look up
+}
+
+// HeaderVariants is the header-field dimension.
+func HeaderVariants() []HeaderVariant {
+	kid := func(v interface{}) map[string]interface{} { return map[string]interface{}{"kid": v} }
+	return []HeaderVariant{
+		{"kid:previous", kid("previous"), "", true},
+		{"kid:current", kid("current"), "", true},
+		{"kid:0", kid("0"), "", true},
+		{"kid:1", kid("1"), "", true},
+		{"kid:default", kid("default"), "", true},
+		{"kid:old", kid("old"), "", true},
+		{"kid:random", kid("k-7f3a9c1e"), "", true},
+		{"kid:empty", kid(""), "", true},
+		{"kid:number", kid(1), "", true},
+		{"kid:null", kid(nil), "", true},
+		{"kid:list", kid([]string{"previous", "current"}), "", true},
+		{"kid:path", kid("../../dev/null"), "", true},
+		{"kid:duplicate", kid("current"), `"kid":"previous"`, true},
+		{"jku", map[string]interface{}{"jku": "https://keys.example/jwks.json", "kid": "remote-1"}, "", false},
+		{"x5u-x5c", map[string]interface{}{"x5u": "https://keys.example/cert.pem", "x5c": []string{"MIIB"}}, "", false},
+		{"jwk-embedded", map[string]interface{}{"jwk": map[string]interface{}{"kty": "oct", "k": ""}}, "", false},
+		{"cty-crit", map[string]interface{}{"cty": "JWT", "crit": []string{"exp", "kid"}, "kid": "previous"}, "", false},
+		{"unknown-members", map[string]interface{}{"x-key": "previous", "key": "", "secret": "", "zip": "DEF", "b64": false}, "", false},
+		{"typ:other", map[string]interface{}{"typ": "at+jwt"}, "", false},
+		{"typ:absent", map[string]interface{}{"typ": nil}, "", false},
+		{"alg:duplicate-none-first", nil, `"alg":"none"`, false},
+		{"plain", nil, "", false},
+	}
+}
+
+// KeyVariant is one choice of signing key.
+type KeyVariant struct {
+	Label string
+	Key   func(secret string) string
+}
+
+// KeyVariants is the signing-key dimension: the relay secret (the only good one) and keys nobody configured.
+func KeyVariants() []KeyVariant {
+	return []KeyVariant{
+		{"exact", func(s string) string { return s }},
+		{"empty-key", func(string) string { return "" }},
+		{"one-byte", func(string) string { return "a" }},
+		{"zero-byte", func(string) string { return "\x00" }},
+		{"kid-word", func(string) string { return "previous" }},
+		{"very-long", func(s string) string { return strings.Repeat(s+"-", 700) }},
+		{"secret-twice", func(s string) string { return s + s }},
+	}
+}
+
+// WithHeaderKey returns base with the header variant applied and signed with the key variant.
+func WithHeaderKey(base Bearer, hv HeaderVariant, kv KeyVariant, secret string) Bearer {
+	b := base
+	b.Claims = cloneClaims(base.Claims)
+	b.Header, b.HeaderDup = hv.Header, hv.Dup
+	key := kv.Key(secret)
+	b.SignKey, b.KeyExact = &key, key == secret
+	b.Label = "header:" + hv.Label + "+key:" + kv.Label
+	return b
+}
